@@ -8,7 +8,15 @@ from props import c05 as M
 ID = "C03"
 LEAN_TARGETS = ["TornadoModel.C03.Props"]
 THEOREMS = [
-    "TornadoModel.C03.stub",
+    "TornadoModel.C03.canKeepAlive_eq_allows",
+    "TornadoModel.C03.keepalive_iff_partial",
+    "TornadoModel.C03.keepalive_iff_refuted",
+    "TornadoModel.C03.close_announced_partial",
+    "TornadoModel.C03.close_announced_refuted",
+    "TornadoModel.C03.no_false_ack_partial",
+    "TornadoModel.C03.no_false_ack_refuted",
+    "TornadoModel.C03.undelimited_closes",
+    "TornadoModel.C03.options_nonempty",
 ]
 TRUSTED = list(M.TRUSTED) + [
     "tornado.web.RequestHandler.flush/finish (automatic Content-Length, HEAD handling) — exercised, not modelled: the "
@@ -24,9 +32,13 @@ RULE = ("full product version x Connection value x method x request-body framing
         "request; non-trivial = every case (each is one decision); random stream adds free-form Connection values")
 EXHAUSTIVE = {"quick": True, "thorough": True}
 CLAUSES = {
-    "keeps the connection open exactly when request allows, not no_keep_alive, response self-delimiting, whole body read": "tie only (stub)",
-    "HTTP/1.1 client is told 'Connection: close' when the server will close": "tie only",
-    "keep-alive acknowledgement never sent on a connection about to close": "tie only",
+    "keeps the connection open exactly when request allows, not no_keep_alive, response self-delimiting, whole body read":
+        "keepalive_iff_partial (all cases except early finish on a body-less request) + keepalive_iff_refuted (known finding) + canKeepAlive_eq_allows + undelimited_closes",
+    "HTTP/1.1 client is told 'Connection: close' when the server will close":
+        "close_announced_partial (handler finished after the body was read) + close_announced_refuted (D13, known finding)",
+    "keep-alive acknowledgement never sent on a connection about to close":
+        "no_false_ack_partial (handler finished after the body was read) + no_false_ack_refuted (D13, known finding)",
+    "followed by a second pipelined request": "tie only: the C05 connection machine (same primitives) predicts the whole two-request trace, compared on every case",
 }
 PARALLEL = True
 CASE_TIMEOUT = 150
